@@ -124,13 +124,12 @@ theorem decode_build (sep : Bytes) (hsep : SepOk sep) (sl : Bytes) (hsl : sl ∈
   have hr : ∀ p ∈ hs, NotReserved (lower p.1) := fun p hp => notReserved_of (hres p hp)
   refine ⟨decoded hs loc src now, ?_, ?_⟩
   · rw [decode_build_wire sep hsep sl hsl hs hwf]
-    unfold headersOf decoded mergedOf
-    rw [mdToDict_wf hd]
+    rfl
   · exact
     { sent := fun p hp hl k hk => decoded_sent hd hr loc src now hp hl k hk
       locBlank := fun p hp hl hw k hk => decoded_location_blank hd hr loc src now hp hl hw k hk
       locAdjusted := fun p hp hl hw => decoded_location hd hr loc src now hp hl hw
-      host := fun k hk => decoded_host hd hr loc src now k hk
+      host := fun k hk => decoded_host hd loc src now k hk
       port := fun k hk => decoded_port hd loc src now k hk
       remote := fun k hk => decoded_remote hd loc src now k hk
       udn := fun k hk => decoded_udn hd hr loc src now k hk
@@ -225,7 +224,7 @@ theorem judge_accepts_roundtrip (sl : Bytes) (hs : List (Bytes × Bytes)) (src :
     intro n hn
     have := hrt.namesSub n (by simpa [observe] using hn)
     simp only [Bool.or_eq_true, List.contains_eq_mem, decide_eq_true_eq]
-    exact this
+    exact Or.inl this
   case sup =>
     rw [List.all_eq_true]
     intro p hp
